@@ -352,6 +352,56 @@ def minimise(line, still=None):
 
 # ------------------------------------------------------------------ entry point
 
+def extensions(line):
+    """The same sequence followed by reads of everything a program could still read: a disagreement in the
+    machine state (a stale slot pointer, a lost sharing) becomes a wrong or impossible read."""
+    size, mx, ops = split_line(line)
+    m = Cells()
+    for o in ops:
+        if m.step(o.split(" ")) is not None:
+            return []
+    reads = ["ug %d" % k for k in range(len(m.hs))] + ["fg %d" % k for k in range(len(m.up))]
+    out = [ops + reads + ["gl %d" % i for i in range(len(m.stack) - m.fp)]]
+    # write through every handle, then read through every other one and the locals
+    w = []
+    for k in range(len(m.hs)):
+        w += ["us %d %d" % (k, 1000 + k)] + reads
+    out.append(ops + w)
+    # leave all frames first
+    rets = []
+    m2 = m
+    depth = len(m.frames)
+    if depth and len(m.stack) > m.fp:
+        out.append(ops + ["ret"] * depth + reads)
+        out.append(ops + ["grow"] + ["ret"] * depth + reads)
+    out.append(ops + ["grow"] + reads)
+    out.append(ops + ["cl 0"] + w)
+    return [mk_line(size, mx, o) for o in out]
+
+
+def search_failing_inputs(ctx, lines):
+    """Search step: lines on which the property itself fails on the implementation go first, so that they are the
+    ones reported; a bare model/implementation disagreement is first extended by reads (see `extensions`)."""
+    impl = vlib.run_impl(lines)
+    model = vlib.run_model(lines)
+    front, cands = [], []
+    for ln, a, b in zip(lines, impl, model):
+        if oracle(ln, a) is not None:
+            front.append(ln)
+        elif a != b and len(cands) < 40:
+            cands += extensions(ln)
+        if len(front) >= 3:
+            break
+    if len(front) < 3 and cands:
+        for ln, a in zip(cands, vlib.run_impl(cands)):
+            if oracle(ln, a) is not None:
+                front.append(ln)
+                if len(front) >= 3:
+                    break
+    ctx.stat("search:front", len(front))
+    return front
+
+
 def classify(ctx, line, ans):
     _, _, ops = split_line(line)
     _, stop, why = ref_run(ops)
@@ -376,6 +426,7 @@ def run_machine(ctx, quick=1500, thorough=40000):
         lines = [inp["line"]]
     else:
         lines = vlib.corpus_lines("upv") + [gen_line(ctx.rng, ctx, not ctx.quick) for _ in range(ctx.n(quick, thorough))]
+    lines = search_failing_inputs(ctx, lines) + lines
     res = vlib.correspond(ctx, lines, oracle=oracle, minimise=minimise, label="upvalue machine (vm.Thread vs Elk.Upvalue.CA)",
                           max_report=3)
     for ln, a, _ in res:
